@@ -72,6 +72,16 @@ pub fn scan(src: &str) -> Vec<Tok> {
                 i += 1;
             }
             out.push(Tok { start, end: i, kind: TokKind::Ident });
+        } else if c == b'#' && i + 1 < b.len() && b[i + 1].is_ascii_alphabetic() {
+            // primitive operator `#Int+`, `#Float==` ...: one token
+            i += 1;
+            while i < b.len() && b[i].is_ascii_alphabetic() {
+                i += 1;
+            }
+            while i < b.len() && b[i] < 128 && !b[i].is_ascii_alphanumeric() && !b[i].is_ascii_whitespace() && !b"()[]{},\"'_".contains(&b[i]) {
+                i += 1;
+            }
+            out.push(Tok { start, end: i, kind: TokKind::Op });
         } else if b"()[]{},".contains(&c) {
             i += 1;
             out.push(Tok { start, end: i, kind: TokKind::Punct });
